@@ -582,7 +582,8 @@ def tlc_trace_generic(ctx, module, trace, timeout=3600):
         return True, {"events": nlines}
     m = re.search(r'<<"REJECT", (\d+), "(.*)">>', out)
     if m:
-        return False, {"line": int(m.group(1)), "record": json.loads(json.loads('"' + m.group(2) + '"')), "events": nlines}
+        why = [l for l in out.splitlines() if l.startswith('<<"ILLFORMED"')]
+        return False, {"line": int(m.group(1)), "record": json.loads(json.loads('"' + m.group(2) + '"')), "events": nlines, "why": why[:1]}
     tail = "\n".join(l for l in out.splitlines() if not l.startswith(("Semantic", "Parsing", "Linting")))[-3000:]
     raise ToolError(f"trace validation failed to run on {trace}:\n{tail}")
 
@@ -1211,7 +1212,7 @@ def check_C10(ctx):
         rec = info["record"]
         line = open(trace).read().splitlines()[info["line"] - 1]
         img = json.loads(line)
-        why = img.get("decode_error") or "Forest!WellFormed is false"
+        why = img.get("decode_error") or ("Forest!WellFormed is false: " + " ".join(info.get("why", [])))
         what = f"the image after step {rec.get('i')} of history {rec.get('run')} (forest --seed {ctx.seed}) is not a well-formed forest: {why}"
         payload = {"property": ctx.prop, "kind": "forest", "seed": ctx.seed, "tier": ctx.tier, "run": rec.get("run"), "i": rec.get("i"), "what": what,
                    "signature": f"forest:{rec.get('run')}:{rec.get('i')}", "image": img if len(line) < 200000 else "(large)"}
@@ -1334,6 +1335,31 @@ def check_C16(ctx):
                      "nothing leaked, allocation records) are judged by TLC (Kv.tla + PagerInv.tla). distinct_nontrivial = multi-threaded sections")
 
 
+def check_C19(ctx):
+    build()
+    runs, steps = tiered(ctx, 8, 60), tiered(ctx, 200, 400)
+    notes = {}
+    for direction, extra in (("current-writes-3.0.0-reads", ["--reader", "3"]), ("3.0.0-writes-current-reads", ["--writer", "3"])):
+        for profile in ("crash", "crashsp") + (("crashcompact",) if direction.startswith("current") else ()):
+            st = run_crash(ctx, runs if profile == "crash" else max(2, runs // 2), steps, profile=profile, tag=f"{direction}-{profile}", extra=extra)
+            notes[f"{direction}/{profile}"] = {k: st.get(k) for k in ("runs", "images", "crash_points", "distinct_probes", "images_the_writer_cannot_open")}
+    ctx.notes["cross_release"] = notes
+    ctx.assumptions += ["redb 3.0.0 is the crate of that version in the local cargo registry, linked into the harness next to the current code; both see "
+                        "the same in-memory storage through their own StorageBackend traits",
+                        "3.0.0 cannot choose a page size: cross-release histories use 4 KiB pages and the default region size",
+                        "histories written by 3.0.0 use the part of the step vocabulary 3.0.0 shares (transactions of all durabilities, 2PC, "
+                        "quick repair, tables and multimaps of all key/value types of the corpora incl. long variable-width keys, "
+                        "insert/remove/pop/remove_all, rename/delete, persistent savepoints); a crash image that 3.0.0 itself cannot open "
+                        "(it does not sync a file growth before the header that relies on it) is not a file 3.0.0 recovers and is skipped"]
+    return dict(level="fault_enumeration", exhaustive=False,
+                rule="both directions: a random history is executed by one release on a recording backend; the file after the clean close and "
+                     "every crash image of every backend-operation boundary (storage model of C01) is opened by the OTHER release: it must open, "
+                     "show exactly one commit point of the history between the last durable and the last requested commit (Kv!CrashAtomic, "
+                     "judged by TLC), show the same contents as the writing release shows for that image (peer_same), pass check_integrity() "
+                     "with unchanged contents, and accept a further write transaction followed by a clean close and reopen. "
+                     "evaluations = images opened; distinct_nontrivial = distinct outcomes per crash point")
+
+
 def check_C11(ctx):
     build()
     st = run_crash(ctx, tiered(ctx, 10, 100), tiered(ctx, 140, 300), extra=["--second-every", str(tiered(ctx, 31, 7))])
@@ -1412,6 +1438,7 @@ PROPS = {
     "C10": check_C10,
     "C16": check_C16,
     "C18": check_C18,
+    "C19": check_C19,
     "C17": check_C17,
 }
 
